@@ -32,6 +32,10 @@ def gen_case(rng):
     fch1 = rng.choice([6e9, 8.4e9, 1.42040575e9, 1e9, rng.uniform(1e8, 1e10), float(rng.randint(10 ** 8, 10 ** 10))])
     F = rng.choice([1, 2, 8, 33, 256, 1024, 4096, rng.randint(1, 5000), 2 ** rng.randint(10, 20)])
     T = rng.choice([1, 2, 16, 33, rng.randint(1, 300)])
+    if rng.random() < 0.2:
+        # (count, step) pairs for which a float-stepped range of count*step miscounts: "the time axis is i*dt", exactly tchans entries
+        T, dt = rng.choice([(15, 1.073741824), (30, 1.073741824), (60, 1.073741824), (3, 0.1), (6, 0.1), (29, 0.1), (15, 1.4316557653333333), (49, 1.4316557653333333),
+                            (59, 1.4316557653333333), (126, 1.073741824)])
     if F * T > 2 ** 19:          # keep frames small: every frame allocates F*T doubles and sigma-clips them
         T = max(1, 2 ** 19 // F)
     asc = rng.random() < 0.5
